@@ -100,6 +100,10 @@ class OsShim:
                 return
             self.sched.blocked[self.pid] = True
 
+    def flock(self, fd, cmd):
+        # another kind of lock: no exclusion against lockf
+        self.sched.point(self.pid, "flock")
+
     def pread(self, fd, n, off):
         self.sched.point(self.pid, f"pread({n},{off})")
         return bytes(self.f.content[off:off + n])
@@ -239,7 +243,73 @@ def native_next(name, conc, notes):
                       f"{first_bad and first_bad[1] >> 22}, not {mine}"}
 
 
+def remove_race():
+    """participant 0 (address number 9) leaves while participant 1 starts and
+    draws number 10 (same byte of the bitmap); every interleaving of the two"""
+    import ebpfcat.lock as L
+    # the leaver runs k steps, the newcomer runs to its end, the leaver goes on;
+    # and the same with the roles swapped
+    schedules = [[0] * k + [1] * 12 + [0] * 12 for k in range(1, 8)] + \
+                [[1] * k + [0] * 12 + [1] * 12 for k in range(1, 8)]
+    for schedule in schedules:
+        f = SimFile()
+        f.exists = True
+        f.content = bytearray(64)
+        f.content[1] |= 1 << 1                      # number 9 registered
+        sched = Scheduler(schedule)
+        shim = OsShim(sched, f, {0: [], 1: [10]})
+        saved = (L.os, L.fcntl, L.randrange)
+        L.os = L.fcntl = shim
+        L.randrange = shim.randrange
+        leaver = object.__new__(L.FMMULock)
+        leaver.base_addr, leaver.fd, leaver.filename = 9 << 22, 100, "sim"
+        out, errors = {}, {}
+
+        def body(pid):
+            shim.local.pid = pid
+            try:
+                sched.point(pid, "start")
+                if pid == 0:
+                    leaver.remove()
+                else:
+                    out[1] = L.FMMULock("sim")
+            except BaseException as e:      # noqa
+                errors[pid] = e
+            finally:
+                sched.done[pid] = True
+                sched.back.release()
+        threads = {}
+        try:
+            for p in range(2):
+                sched.register(p)
+                threads[p] = threading.Thread(target=body, args=(p,), daemon=True)
+            try:
+                sched.run(threads)
+            except RuntimeError:
+                continue
+        finally:
+            L.os, L.fcntl, L.randrange = saved
+        if errors:
+            return {"schedule": list(schedule), "what": [f"{p}: {type(e).__name__}: {e}" for p, e in errors.items()],
+                    "trace": [f"{p}:{w}" for p, w in sched.trace]}
+        n = out[1].base_addr >> 22
+        if not (f.content[n // 8] >> (n % 8)) & 1:
+            return {"schedule": list(schedule), "trace": [f"{p}:{w}" for p, w in sched.trace],
+                    "what": [f"the newcomer got address number {n}, but its bit is clear after the leaver's "
+                             f"write-back: the next process may be given the same window"]}
+    return None
+
+
 def native_remove(name, conc, notes):
+    w = remove_race()
+    if w is not None:
+        return {"inputs": {"schedule": w["schedule"]}, "reproduced": True,
+                "detail": f"real FMMULock.remove of one participant interleaved with a real FMMULock.__init__ of "
+                          f"another over one simulated file: {'; '.join(w['what'])}; trace {' '.join(w['trace'])}"}
+    return native_remove_alone(name, conc, notes)
+
+
+def native_remove_alone(name, conc, notes):
     import ebpfcat.lock as L
     if not conc or "self" not in conc:
         return {"inputs": None, "reproduced": None, "detail": "no concrete input"}
